@@ -72,6 +72,42 @@ Record ccase := {
   i_trace_load : list effect; i_trace_conv : list effect; i_leak : bool
 }.
 
+(* the scratch tree of the implementation harness (impl/c16.py), by construction: path string -> physical
+   components; the first case of every run carries the table explicitly and is compared with this constant *)
+Definition std_real : list (str * list str) := Eval vm_compute in
+  [(lit "/", []);
+   (lit "/$ROOT/alias", [lit "$ROOT"; lit "allowed"]);
+   (lit "/$ROOT/alias/v_in.py", [lit "$ROOT"; lit "allowed"; lit "v_in.py"]);
+   (lit "/$ROOT/allow", [lit "$ROOT"; lit "allow"]);
+   (lit "/$ROOT/allowed", [lit "$ROOT"; lit "allowed"]);
+   (lit "/$ROOT/allowed/", [lit "$ROOT"; lit "allowed"]);
+   (lit "/$ROOT/allowed/../outside/v_out.py", [lit "$ROOT"; lit "outside"; lit "v_out.py"]);
+   (lit "/$ROOT/allowed/link_out.py", [lit "$ROOT"; lit "outside"; lit "v_out.py"]);
+   (lit "/$ROOT/allowed/linkdir", [lit "$ROOT"; lit "outside"]);
+   (lit "/$ROOT/allowed/linkdir/v_out.py", [lit "$ROOT"; lit "outside"; lit "v_out.py"]);
+   (lit "/$ROOT/allowed/nonexistent.py", [lit "$ROOT"; lit "allowed"; lit "nonexistent.py"]);
+   (lit "/$ROOT/allowed/sub", [lit "$ROOT"; lit "allowed"; lit "sub"]);
+   (lit "/$ROOT/allowed/sub/v_sub.py", [lit "$ROOT"; lit "allowed"; lit "sub"; lit "v_sub.py"]);
+   (lit "/$ROOT/allowed/v_in.py", [lit "$ROOT"; lit "allowed"; lit "v_in.py"]);
+   (lit "/$ROOT/allowed_evil/v_pfx.py", [lit "$ROOT"; lit "allowed_evil"; lit "v_pfx.py"]);
+   (lit "/$ROOT/outside", [lit "$ROOT"; lit "outside"]);
+   (lit "/$ROOT/outside/link_in.py", [lit "$ROOT"; lit "allowed"; lit "v_in.py"]);
+   (lit "/$ROOT/outside/v_out.py", [lit "$ROOT"; lit "outside"; lit "v_out.py"]);
+   (lit "/$ROOT/pipe", [lit "$ROOT"; lit "pipe"]);
+   (lit "/$ROOT/pipe/pipeline.yml", [lit "$ROOT"; lit "pipe"; lit "pipeline.yml"]);
+   (lit "/$ROOT/pipe/v_pipe.py", [lit "$ROOT"; lit "pipe"; lit "v_pipe.py"])].
+Definition std_loadable : list str := Eval vm_compute in
+  [lit "/$ROOT/allowed/v_in.py";
+   lit "/$ROOT/allowed/sub/v_sub.py";
+   lit "/$ROOT/allowed/link_out.py";
+   lit "/$ROOT/allowed/linkdir/v_out.py";
+   lit "/$ROOT/allowed/../outside/v_out.py";
+   lit "/$ROOT/allowed_evil/v_pfx.py";
+   lit "/$ROOT/outside/v_out.py";
+   lit "/$ROOT/outside/link_in.py";
+   lit "/$ROOT/alias/v_in.py";
+   lit "/$ROOT/pipe/v_pipe.py"].
+
 Definition unknown_comp : str := lit "?unknown".
 Definition real_of (tbl : list (str * list str)) (s : str) : list str :=
   match assoc s tbl with Some c => c | None => [unknown_comp; s] end.
@@ -98,6 +134,8 @@ Definition judge (c : ccase) : N :=
             | _ => (None, [])
             end in
   let agree :=
+      list_eqb (fun a b => str_eqb (fst a) (fst b) && strs_eqb (snd a) (snd b)) (c_real c) std_real &&
+      strs_eqb (c_loadable c) std_loadable &&
       N.eqb (oclass (fst lr)) (i_load c) && option_eqb otree_eqb mtree (i_tree c) &&
       option_eqb N.eqb (fst cr) (i_conv c) &&
       list_eqb effect_eqb (snd lr) (i_trace_load c) && list_eqb effect_eqb (snd cr) (i_trace_conv c) in
